@@ -252,6 +252,28 @@ def expand (db : Db) (sch : Schema) : Loader → List Load
 
 def applyLoader (db : Db) (sch : Schema) (s : Sess) (l : Loader) : Sess := (expand db sch l).foldl (applyLoad db) s
 
+/-! ### merging link rows into a collection that has PENDING changes (a modifying session) -/
+
+/-- what the session holds for one member of a many-to-many batch load: the items known so far and the member's own unflushed
+    additions and removals (`SetData`, `setdata.added`, `setdata.removed`) -/
+structure Pending where
+  items : List Oid
+  added : List Oid
+  removed : List Oid
+  deriving Repr, DecidableEq
+
+/-- `Set.load`, many-to-many branch, for ONE member `obj2` of the batch with link rows `rows`:
+      phantoms = setdata2 - items;  if setdata2.added: phantoms -= setdata2.added;  phantoms → UnrepeatableReadError
+      items -= setdata2;  if setdata2.removed: items -= setdata2.removed;  setdata2 |= items
+    `whoseAdded` is the `added` set the phantom check subtracts: the member's OWN (`p.added`) in the code as it is -/
+def mergeLinks (rows : List Oid) (p : Pending) (whoseAdded : List Oid) : Except Oid (List Oid) :=
+  match (p.items.filter (fun i => decide (i ∉ rows) && decide (i ∉ whoseAdded))) with
+  | ph :: _ => .error ph
+  | [] => .ok (p.items ++ rows.filter (fun i => decide (i ∉ p.items) && decide (i ∉ p.removed)))
+
+/-- what the member's collection is for the program: the database rows with the member's own pending changes applied -/
+def expectedItems (rows : List Oid) (p : Pending) : List Oid := rows.filter (fun i => decide (i ∉ p.removed)) ++ p.added.filter (fun i => decide (i ∉ rows))
+
 inductive LStep where
   | read (r : Read)
   | load (l : Loader)
